@@ -64,6 +64,18 @@ FULL_MAX_DIM = 2
 FULL_COEFFS_THOROUGH_D2 = (0, 1, -1, 2)
 FULL_COEFFS_THOROUGH_D3 = (0, 1)        # dimension 3, REDUCED_METRICS_3
 CONSTRUCT_STRIPES = 16                  # the construction cases of a space are dealt over 16 rows
+IDENTITY_COEFFS = (("1", "1"), ("2", "-1"), ("x", "y"))   # pairs: project/rev/invol identities
+HISTORY_PRIORS = ("hash", "dict", "set", "eq")   # what was done to the operand(s) beforehand
+HISTORY_PRIORS_BINARY = ("hash", "dict")
+HISTORY_UNARY2_COEFFS = (("1", "1"), ("2", "-1"), ("x", "y"))
+HISTORY_BINARY_COEFFS = (("1", "1"), ("x", "2"))
+HIGH_DIMS = (31, 32, 33, 34, 64, 65)    # around the 32- and 64-bit word boundaries of the bitmaps
+HIGH_MAX_GRADE = 3                      # blades of <= 3 pool indices (+ the whole pool)
+HIGH_PAIR_COEFFS = (("1", "1"), ("2", "x"))
+HIGH_PAIR_COEFFS_THOROUGH = (("1", "1"), ("2", "x"), ("1/2", "-1"))
+HIGH_TRIPLE_MAX_GRADE = 2
+HIGH_TRIPLE_LAST_MAX_GRADE = 1          # third factor of a high-dimensional triple: scalar or vector
+HIGH_UNARY2_COEFFS = (("1", "1"), ("x", "y"))
 PERM_MAX_LEN = 3                        # index tuples of at most this length, every permutation
 FLOAT_TOL = 1e-12                       # only where the implementation itself produced a float
 MAX_KINDS_SHRUNK_PER_CASE = 6
@@ -74,6 +86,20 @@ MAX_SIGS_PER_WORKER_AND_KIND = 4        # likewise: distinct minimal signatures 
 
 
 # {{{ spaces and coefficients
+
+def high_pool(dim):
+    """Basis indices around the word boundaries of the bitmap representation."""
+    return sorted({0, 31, 32, 33, dim - 2, dim - 1} & set(range(dim)))
+
+
+@lru_cache(maxsize=None)
+def high_blades(dim):
+    pool = high_pool(dim)
+    out = [c for r in range(HIGH_MAX_GRADE + 1) for c in itertools.combinations(pool, r)]
+    if len(pool) > HIGH_MAX_GRADE:
+        out.append(tuple(pool))
+    return out
+
 
 def metrics(dim):
     return list(itertools.product(METRIC_ENTRIES, repeat=dim))
@@ -115,7 +141,6 @@ class Ctx:
             else:
                 self.space = Space([f"b{i}" for i in range(dim)], mat)
         self.ref = RefAlgebra(dim, self.metric)
-        self.blades = all_blades(dim)
 
 
 @lru_cache(maxsize=None)
@@ -335,6 +360,7 @@ def check_bin(ctx, payload, only=None):
         if bad:
             fails.append((f"scalar_product{form}:{bad[0]}", bad[1]))
     if (opset == "prod" and len(m_terms) == 1 and len(n_terms) == 1
+            and (m_terms[0][1], n_terms[0][1]) in IDENTITY_COEFFS
             and (not only or only in ("grade-part", "rev-of-product", "invol-of-product"))):
         # the statement's own formulation, on the implementation's geometric product
         prod = run(operator.mul, a, b)
@@ -582,7 +608,106 @@ def check_con(ctx, payload, only=None):
     return fails, 1, True
 
 
-CASE_CHECKS = {"bin": check_bin, "tri": check_tri, "una": check_una, "con": check_con,
+def _prior_use(prior, mv):
+    if prior == "hash":
+        hash(mv)
+    elif prior == "dict":
+        d = {mv: 1}
+        assert d[mv] == 1
+    elif prior == "set":
+        assert mv in {mv}
+    elif prior == "eq":
+        assert mv == mv
+    else:
+        raise ValueError(prior)
+
+
+HIS_UNARY = (("neg", operator.neg, "neg"), ("rev", lambda m: m.rev(), "rev"),
+             ("invol", lambda m: m.invol(), "invol"), ("dual", lambda m: m.dual(), "dual"))
+HIS_BINARY = BIN_OPS + (("+", operator.add), ("-", operator.sub))
+
+
+def check_his(ctx, payload, only=None):
+    """Operation histories on one object: the operand(s) are hashed / used as dict key / set
+    member / compared FIRST, then operated on; every result must have the right value, be == a
+    freshly constructed equal multivector and hash like it, and behave exactly like the result
+    obtained from a never-used twin of the operand.  Afterwards the operand is unchanged."""
+    prior, m_terms, n_terms = payload
+    sym = is_sym_terms(m_terms, n_terms)
+    ref = ctx.ref
+    rm, rn = refmv(m_terms, sym), refmv(n_terms, sym)
+    a, twin = build(ctx, m_terms), build(ctx, m_terms)
+    fails = []
+    n = 0
+    _prior_use(prior, a)
+
+    def result_check(name, outcome, twin_outcome, exp):
+        nonlocal n
+        n += 2
+        bad = compare_mv(ctx, sym, outcome, exp, True)
+        if bad:
+            fails.append((f"history-{name}:{bad[0]}", f"after {prior} on the operand: {bad[1]}"))
+            return None
+        if twin_outcome[0] != "ok":
+            return outcome[1]
+        o = run(operator.eq, outcome[1], twin_outcome[1])
+        if o[0] != "ok" or not bool(o[1]):
+            fails.append((f"history-{name}:twin-eq", f"after {prior} on the operand the result "
+                          f"{outcome[1].data!r} is not == the result {twin_outcome[1].data!r} "
+                          "obtained from an unused equal operand"))
+            return None
+        o = run(lambda: hash(outcome[1]) == hash(twin_outcome[1]))
+        if o[0] != "ok" or not o[1]:
+            fails.append((f"history-{name}:twin-hash", f"after {prior} on the operand the result "
+                          f"{outcome[1].data!r} hashes differently from the == result obtained "
+                          "from an unused equal operand"))
+            return None
+        return outcome[1]
+
+    if not n_terms:
+        for name, fn, refname in HIS_UNARY:
+            exp = getattr(ref, refname)(rm)
+            r1 = result_check(name, run(fn, a), run(fn, twin), exp)
+            if r1 is None or name == "dual":
+                continue
+            # second step: use the result, operate again
+            _prior_use("hash" if prior == "eq" else prior, r1)
+            t1 = fn(twin)
+            for name2, fn2, refname2 in HIS_UNARY[:3]:
+                result_check(f"{name}-{name2}", run(fn2, r1), run(fn2, t1),
+                             getattr(ref, refname2)(exp))
+        grades = {len(b) for b, _ in m_terms}
+        exp_inv = ref.inverse(rm) if (len(m_terms) == 1 or grades == {1}) else None
+        if exp_inv is not None:
+            result_check("inv", run(lambda: a.inv()), run(lambda: twin.inv()), exp_inv)
+    else:
+        b, twin_b = build(ctx, n_terms), build(ctx, n_terms)
+        _prior_use(prior, b)
+        for name, fn in HIS_BINARY:
+            if name == "+":
+                exp = ref.add(rm, rn)
+            elif name == "-":
+                exp = ref.sub(rm, rn)
+            else:
+                exp = ref.mul(rm, rn, name)
+            result_check(f"binary{name}", run(fn, a, b), run(fn, twin, twin_b), exp)
+        bad = compare_mv(ctx, sym, ("ok", b), rn, True)
+        if bad:
+            fails.append((f"history-operand:{bad[0]}", f"right operand after the operations: "
+                          f"{bad[1]}"))
+    # the operand itself is untouched
+    n += 3
+    bad = compare_mv(ctx, sym, ("ok", a), rm, True)
+    if bad:
+        fails.append((f"history-operand:{bad[0]}", f"operand after the operations: {bad[1]}"))
+    o = run(lambda: a == twin and hash(a) == hash(twin) and {a: 1}[twin] == 1)
+    if o[0] != "ok" or not o[1]:
+        fails.append(("history-operand:twin", f"operand after {prior} and the operations no "
+                      f"longer equals / hashes like / looks up as an unused twin: {o[1:]}"))
+    return fails, n, True
+
+
+CASE_CHECKS = {"his": check_his, "bin": check_bin, "tri": check_tri, "una": check_una, "con": check_con,
                "axi": check_axi}
 
 
@@ -603,6 +728,10 @@ def _operands(case):
         return list(payload[1:]), lambda ops: (kind, dim, metric, dtype, (payload[0], *ops))
     if kind in ("tri", "una"):
         return list(payload), lambda ops: (kind, dim, metric, dtype, tuple(ops))
+    if kind == "his":
+        if payload[2]:
+            return list(payload[1:]), lambda ops: (kind, dim, metric, dtype, (payload[0], *ops))
+        return [payload[1]], lambda ops: (kind, dim, metric, dtype, (payload[0], ops[0], ()))
     if kind == "con" and payload[0] == "perm":
         return [payload[1]], lambda ops: (kind, dim, metric, dtype, ("perm", ops[0]))
     return None, None
@@ -628,7 +757,7 @@ def _drop_dim(case, i):
     rb = lambda b: tuple(ren(k) for k in b)                                 # noqa: E731
     rt = lambda terms: tuple((rb(b), c) for b, c in terms)                  # noqa: E731
     nm = tuple(g for k, g in enumerate(metric) if k != i)
-    if kind == "bin":
+    if kind in ("bin", "his"):
         p = (payload[0], rt(payload[1]), rt(payload[2]))
     elif kind in ("tri", "una"):
         p = tuple(rt(t) for t in payload)
@@ -647,14 +776,40 @@ def _drop_dim(case, i):
     return (kind, dim - 1, nm, dtype, p)
 
 
+def _drop_dims(case, indices):
+    for i in sorted(indices, reverse=True):
+        if case is None:
+            return None
+        case = _drop_dim(case, i)
+    return case
+
+
 def candidates(case):
     kind, dim, metric, dtype, payload = case
     if dtype != "obj" and not (kind == "con" and payload[0] == "vec-default-space"):
         yield (kind, dim, metric, "obj", payload)
+    used = _used_indices(case)
+    unused = [i for i in range(dim) if i not in used]
+    # big jumps first: whole metric -> 1, metric of the unused basis vectors -> 1, cut off the
+    # dimensions above the highest index used, remove all unused dimensions
+    if dtype != "euc" and any(g != 1 for g in metric):
+        yield (kind, dim, (1,) * dim, dtype, payload)
+        if any(metric[i] != 1 for i in unused):
+            yield (kind, dim, tuple(1 if i in unused else g for i, g in enumerate(metric)), dtype,
+                   payload)
+    top = [i for i in unused if i > max(used, default=-1)]
+    if top:
+        c2 = _drop_dims(case, top)
+        if c2 is not None:
+            yield c2
+    if len(unused) > len(top) and len(unused) > 1:
+        c2 = _drop_dims(case, unused)
+        if c2 is not None:
+            yield c2
     ops, rebuild = _operands(case)
     if ops is not None:
         for oi, terms in enumerate(ops):
-            min_terms = 1 if kind in ("tri", "una", "con") or payload[0] != "all" else 0
+            min_terms = 1 if kind in ("tri", "una", "con", "his") or payload[0] != "all" else 0
             if len(terms) > min_terms:
                 for ti in range(len(terms)):
                     new = list(ops)
@@ -701,12 +856,10 @@ def candidates(case):
         for k, g in enumerate(metric):
             if g not in (1, -1):
                 yield (kind, dim, metric[:k] + (-1,) + metric[k + 1:], dtype, payload)
-    used = _used_indices(case)
-    for i in range(dim - 1, -1, -1):
-        if i not in used:
-            c2 = _drop_dim(case, i)
-            if c2 is not None:
-                yield c2
+    for i in reversed(unused):
+        c2 = _drop_dim(case, i)
+        if c2 is not None:
+            yield c2
 
 
 def shrink(case, kind_of_failure):
@@ -719,13 +872,17 @@ def shrink(case, kind_of_failure):
             if cand == case:
                 continue
             budget -= 1
-            try:
-                fails, _, _ = check_case(cand, only)
-            except (Hang, RecursionError, MemoryError):
-                raise
-            except Exception:  # noqa: BLE001
-                continue
-            if any(k == kind_of_failure for k, _ in fails):
+            kinds = _SHRINK_MEMO.get((cand, only))
+            if kinds is None:
+                try:
+                    kinds = frozenset(k for k, _ in check_case(cand, only)[0])
+                except (Hang, RecursionError, MemoryError):
+                    raise
+                except Exception:  # noqa: BLE001
+                    kinds = frozenset()
+                if len(_SHRINK_MEMO) < 200000:
+                    _SHRINK_MEMO[(cand, only)] = kinds
+            if kind_of_failure in kinds:
                 case = cand
                 progress = True
                 break
@@ -740,9 +897,14 @@ def show_terms(terms):
 
 def render(case):
     kind, dim, metric, dtype, payload = case
-    head = f"dim={dim} metric={','.join(map(str, metric)) or '-'} {dtype}"
+    runs = [(g, len(list(grp))) for g, grp in itertools.groupby(metric)]
+    mtxt = ",".join(f"{g}^{k}" if k > 3 else ",".join([str(g)] * k) for g, k in runs)
+    head = f"dim={dim} metric={mtxt or '-'} {dtype}"
     if kind == "bin":
         body = f"[{payload[0]}] ({show_terms(payload[1])}) . ({show_terms(payload[2])})"
+    elif kind == "his":
+        body = (f"[{payload[0]} first] ({show_terms(payload[1])})"
+                + (f" . ({show_terms(payload[2])})" if payload[2] else ""))
     elif kind == "tri":
         body = " . ".join(f"({show_terms(t)})" for t in payload)
     elif kind == "una":
@@ -764,13 +926,14 @@ def render(case):
 
 _SHRINKS = {}
 _SIGS = {}
+_SHRINK_MEMO = {}
 
 
 def _key_of(case, with_coeffs):
     kind, dim, metric, dtype, payload = case
     if with_coeffs:
         return (kind, dim, metric, payload)
-    if kind == "bin":
+    if kind in ("bin", "his"):
         strip = tuple(tuple(b for b, _ in t) for t in payload[1:])
         return (kind, dim, metric, payload[0], strip)
     return (kind, dim, metric, tuple(tuple(b for b, _ in t) for t in payload))
@@ -800,11 +963,22 @@ class C18(Check):
         "coefficients and every sum of two basis blades x 6 coefficient pairs: d<=3 -> d<=4 + 8 "
         "metrics in d=5; [axioms] e_i e_i = g_ii, e_i e_j = -e_j e_i = e_ij written down directly; "
         "[construct] index tuples in every permutation of <= 3 indices singly and in pairs, numpy "
-        "vectors over {0,1,-1}, scalars, bitmap dicts: d<=3 -> d<=5. A case is non-trivial when "
+        "vectors over {0,1,-1}, scalars, bitmap dicts: d<=3 -> d<=5; [history] operation histories "
+        "on one object: the operand(s) are first hashed / used as dict key / put in a set / "
+        "compared, then -, rev, invol, dual, inv (and a second such step on the used result) or "
+        "* ^ | << >> + - are applied; each result must have the reference value, be == and hash "
+        "like a freshly built equal multivector and like the result from a never-used twin, and "
+        "the operand must be unchanged: every blade x 5 coefficients, every two-blade sum x 3 "
+        "patterns, every blade pair, d<=2 all metrics and 8 metrics of d=3 -> d<=3 all metrics, 8 "
+        "of d=4; [highdim] dimensions 31, 32, 33, 34, 64, 65 (word boundaries of the bitmaps), 2 "
+        "metrics: all blades of <= 3 indices from {0, 31, 32, 33, d-2, d-1} (+ the whole pool) as "
+        "pairs (2 -> 3 coefficient pairs), triples (two <= 2-index blades, then a scalar or vector) "
+        "and the unary family. "
+        "A case is non-trivial when "
         "the reference geometric product of its operands is non-zero (pairs, lin, full, triples) "
-        "resp. always (unary, construct, axioms); distinct = distinct (family, dimension, metric, "
+        "resp. always (unary, construct, axioms, history); distinct = distinct (family, dimension, metric, "
         "operand blades) -- coefficient patterns and the metric dtype are NOT counted as distinct, "
-        "except in full/unary/construct where the coefficients are part of the operand.")
+        "except in full/unary/construct/history where the coefficients are part of the operand.")
     assumptions = [
         "oracle: vf/c18_ref.py -- product of basis blades on index lists (concatenate, bubble "
         "sort with sign flips, contract equal neighbours with the metric entry), extended "
@@ -858,7 +1032,21 @@ class C18(Check):
                 return space_list(dims, QUICK_DTYPES_1)
             return space_list(dims, DTYPES, [(4, REDUCED_METRICS_4, DTYPES)])
         if fam == "full":
+            if q:       # two dtypes up to dimension 1, object dtype in dimension 2
+                return space_list((0, 1), QUICK_DTYPES_2, [(2, metrics(2), QUICK_DTYPES_1)])
             return space_list(tuple(range(FULL_MAX_DIM + 1)), QUICK_DTYPES_2)
+        if fam == "history":
+            if q:
+                return space_list((0, 1, 2), QUICK_DTYPES_2, [(3, REDUCED_METRICS_3, QUICK_DTYPES_2)])
+            return space_list(dims, DTYPES, [(4, REDUCED_METRICS_4, QUICK_DTYPES_2)])
+        if fam == "highdim":
+            out = []
+            for d in HIGH_DIMS:
+                mixed = tuple((1, -1, 2)[i % 3] for i in range(d))
+                for dt in (QUICK_DTYPES_2 if q else DTYPES):
+                    out.append((d, (1,) * d, dt))
+                    out.append((d, mixed, dt))
+            return out
         if fam == "full-d3":
             return space_list((), (), [(3, REDUCED_METRICS_3, ("obj",))])
         if fam == "construct":
@@ -883,6 +1071,13 @@ class C18(Check):
                     for ai in range(nb):
                         for bi in range(ai + 1, nb):
                             yield ("row", d, m, dt, ai * nb + bi)
+            return gen
+
+        def rows_high(fam):
+            def gen():
+                for d, m, dt in self._spaces(tier, fam):
+                    for ai in range(len(high_blades(d))):
+                        yield ("row", d, m, dt, ai)
             return gen
 
         def rows_stripes(fam):
@@ -914,6 +1109,8 @@ class C18(Check):
             ("full", rows_full("full", lambda d: self._full_coeffs(tier, "full", d))),
             ("unary", rows_blade("unary")),
             ("construct", rows_stripes("construct")),
+            ("history", rows_blade("history")),
+            ("highdim", rows_high("highdim")),
         ]
         if tier == "thorough":
             fams.append(("full-d3", rows_full("full-d3", lambda d: FULL_COEFFS_THOROUGH_D3)))
@@ -948,7 +1145,7 @@ class C18(Check):
 
     def _expand(self, family, item, tier):
         _, d, m, dt, ai = item
-        blades = all_blades(d)
+        blades = all_blades(d) if d <= REDUCED_DIM else None
         mk = lambda kind, payload: (kind, d, m, dt, payload)                  # noqa: E731
         if family == "axioms":
             for i in range(d):
@@ -994,6 +1191,40 @@ class C18(Check):
             for b in blades[ai + 1:]:
                 for c1, c2 in UNARY2_COEFFS:
                     yield mk("una", (((a, c1), (b, c2)),))
+        elif family == "history":
+            a = blades[ai]
+            for prior in HISTORY_PRIORS:
+                for c in UNARY_COEFFS:
+                    yield mk("his", (prior, ((a, c),), ()))
+                for b in blades[ai + 1:]:
+                    for c1, c2 in HISTORY_UNARY2_COEFFS:
+                        yield mk("his", (prior, ((a, c1), (b, c2)), ()))
+            for prior in HISTORY_PRIORS_BINARY:
+                for b in blades:
+                    for ca, cb in HISTORY_BINARY_COEFFS:
+                        yield mk("his", (prior, ((a, ca),), ((b, cb),)))
+        elif family == "highdim":
+            hb = high_blades(d)
+            a = hb[ai]
+            pats = HIGH_PAIR_COEFFS if tier == "quick" else HIGH_PAIR_COEFFS_THOROUGH
+            for b in hb:
+                for ca, cb in pats:
+                    yield mk("bin", ("prod", ((a, ca),), ((b, cb),)))
+            if len(a) <= HIGH_TRIPLE_MAX_GRADE:
+                small = [b for b in hb if len(b) <= HIGH_TRIPLE_MAX_GRADE]
+                for b in small:
+                    for c in small:
+                        if len(c) > HIGH_TRIPLE_LAST_MAX_GRADE:
+                            continue
+                        yield mk("tri", (((a, "1"),), ((b, "1"),), ((c, "1"),)))
+            for c in UNARY_COEFFS:
+                yield mk("una", (((a, c),),))
+                if c in ("1", "x"):
+                    yield mk("his", ("hash", ((a, c),), ()))
+            for b in hb:
+                if len(b) == 1 and b != a:
+                    for c1, c2 in HIGH_UNARY2_COEFFS:
+                        yield mk("una", (((a, c1), (b, c2)),))
         elif family == "construct":
             perms = [p for r in range(min(PERM_MAX_LEN, d) + 1)
                      for p in itertools.permutations(range(d), r)]
@@ -1037,7 +1268,7 @@ class C18(Check):
             cases = [item[1]]
         else:
             cases = self.expand(family, item, tier)
-        with_coeffs = family in ("full", "full-d3", "unary", "construct", "axioms")
+        with_coeffs = family in ("full", "full-d3", "unary", "construct", "axioms", "history")
         first = None
         for case in cases:
             if first is None:
